@@ -157,6 +157,32 @@ func runXzCase(r *Result, dp *DriverPool, prop string, cs xzCase, sizes []int64)
 		}
 		return
 	}
+	// functional tie of the WHOLE xz writer: the Lean model (block bookkeeping + Writer2 machine + its own model of
+	// the selected match finder + container assembly incl. checks) computes the stream from the Write calls alone
+	if prop == "C01" && c.DictCap <= 8192 && len(data) <= 30000 && (c.Matcher == 0 || len(data) <= 9000) && (c.BlockSize == 0 || c.BlockSize >= 200) {
+		blk := c.BlockSize
+		if blk == 0 {
+			blk = 1<<63 - 1
+		}
+		q := fmt.Sprintf("xzwauto %d %d %d %d %d %d", c.Matcher, (c.PB*5+c.LP)*9+c.LC, c.DictCap, c.BufSize, blk, checksumOf(c))
+		off := 0
+		for _, k := range cs.Parts {
+			q += " W" + hxe(data[off:off+k])
+			off += k
+		}
+		if rep, err := dp.Ask(q); err == nil {
+			r.Inc(fmt.Sprintf("xzwriter_auto_matcher%d", c.Matcher))
+			if strings.TrimSpace(rep) != hxe(w.Out) {
+				m := unhxe(strings.TrimSpace(rep))
+				pos := 0
+				for pos < len(m) && pos < len(w.Out) && m[pos] == w.Out[pos] {
+					pos++
+				}
+				viol("broken-correspondence", fmt.Sprintf("xzwriter-auto stream bytes matcher=%d", c.Matcher),
+					fmt.Sprintf("the Lean model of the whole xz writer (with its own match finder model) produces a different stream: first difference at byte %d of %d (model %d bytes)", pos, len(w.Out), len(m)))
+			}
+		}
+	}
 	nontrivial := len(data) >= 16
 	// Go reader
 	g := goXzRead(w.Out, 0, false, 120*time.Second)
